@@ -537,7 +537,36 @@ class Walker:
 
     def s_For(self, s, st, d):
         itr = self.ev(s.iter, st, d)
+        if isinstance(itr, (ast.Tuple, ast.List)) and 0 < len(itr.elts) <= 6 and not any(isinstance(x, ast.Starred) for x in itr.elts) and not st.loopdepth:
+            return self._unrolled(s, st, d, itr.elts)
         return self._loop(s, st, d, 'for', s.target, itr, None)
+
+    def _unrolled(self, s, st, d, elts):
+        """a loop over a literal tuple / list display is its body once per element, in order"""
+        live, done = [(st, None)], []
+        for x in elts:
+            nxt = []
+            for p, status in live:
+                self.assign(s.target, copy.deepcopy(x), p, d, s)
+                for q, st2 in self.block(s.body, p, d):
+                    if st2 is None or st2[0] == 'continue':
+                        nxt.append((q, None))
+                    elif st2[0] == 'break':
+                        done.append((q, ('broken', None)))
+                    else:
+                        done.append((q, st2))
+            live = nxt
+            if len(live) + len(done) > self.max_paths:
+                raise Undecided('path bound %d exceeded while unrolling the loop at line %d' % (self.max_paths, s.lineno))
+        out = []
+        for p, status in live:
+            if s.orelse:
+                out.extend(self.block(s.orelse, p, d))
+            else:
+                out.append((p, None))
+        for p, status in done:
+            out.append((p, None if status[0] == 'broken' else status))
+        return out
 
     def s_While(self, s, st, d):
         return self._loop(s, st, d, 'while', None, None, s.test)
@@ -676,6 +705,11 @@ def const_truth(t):
             names = {n.id for n in ast.walk(t.args[1]) if isinstance(n, ast.Name)} | {n.attr for n in ast.walk(t.args[1]) if isinstance(n, ast.Attribute)}
             if not names & {'FunctionType', 'LambdaType', 'Callable', 'object'}:
                 return False
+    if isinstance(t, ast.Compare) and len(t.ops) == 1 and isinstance(t.ops[0], (ast.Eq, ast.NotEq, ast.Is, ast.IsNot)):
+        a, b = t.left, t.comparators[0]
+        for x, y in ((a, b), (b, a)):
+            if isinstance(x, ast.Constant) and x.value is None and _never_none(y):
+                return isinstance(t.ops[0], (ast.NotEq, ast.IsNot))
     if isinstance(t, ast.Compare) and len(t.ops) == 1 and isinstance(t.left, ast.Constant) and isinstance(t.comparators[0], ast.Constant):
         a, b, op = t.left.value, t.comparators[0].value, t.ops[0]
         if isinstance(op, ast.Is):
@@ -737,6 +771,22 @@ def _pure_test(t):
         if isinstance(n, (ast.NamedExpr, ast.Await, ast.Yield, ast.YieldFrom, ast.Lambda)):
             return False
     return True
+
+
+_STR_METHODS = {'hexdigest', 'digest', 'encode', 'decode', 'join', 'format', 'lower', 'upper', 'strip', 'replace'}
+
+
+def _never_none(e):
+    """an expression whose value cannot be None (a text / number / display / digest)"""
+    if isinstance(e, ast.Constant):
+        return e.value is not None
+    if isinstance(e, (ast.JoinedStr, ast.List, ast.Tuple, ast.Dict, ast.Set, ast.ListComp, ast.DictComp, ast.SetComp, ast.BinOp, ast.Lambda)):
+        return True
+    if isinstance(e, ast.Call) and isinstance(e.func, ast.Attribute) and e.func.attr in _STR_METHODS:
+        return True
+    if isinstance(e, ast.Call) and isinstance(e.func, ast.Name) and e.func.id in ('str', 'repr', 'len', 'int', 'bytes', 'list', 'tuple', 'dict', 'set', 'bool'):
+        return True
+    return False
 
 
 def _load(t):
@@ -899,6 +949,10 @@ class _Ev:
         kws = [ast.keyword(arg=k.arg, value=self.v(k.value, cond)) for k in e.keywords]
         new = ast.Call(func=func, args=args, keywords=kws)
         ast.copy_location(new, e)
+        # getattr(x, 'name') is x.name
+        if isinstance(func, ast.Name) and func.id == 'getattr' and len(args) == 2 and not kws and isinstance(args[1], ast.Constant) \
+                and isinstance(args[1].value, str) and args[1].value.isidentifier():
+            return self.v_Attribute(ast.Attribute(value=e.args[0], attr=args[1].value, ctx=ast.Load()), cond)
         in_binder = bool(self.shadow)
         # setattr(obj, name, val) is a store
         if isinstance(func, ast.Name) and func.id == 'setattr' and len(args) == 3:
